@@ -1,21 +1,25 @@
 #!/bin/bash
-# tools/try_mutant.sh <worktree-with-the-change-applied | patch.diff> <tier> <Cxx> [Cyy ...]
-# Runs the given checks against a seeded change.
-#  - given a directory (a scratch worktree of /repo that has the change applied): the harness is pointed at it
-#    through VERIF_REPO, /repo is not touched;
-#  - given a patch: it is applied to /repo, the checks run, and it is ALWAYS reverted.
+# tools/try_mutant.sh <patch.diff | dir containing MUTANT/patch.diff | /verif/seeded/<id>> <tier> <Cxx> [Cyy ...]
+# Runs the given checks against a seeded change WITHOUT touching /repo: a scratch worktree of /repo's
+# current HEAD is created outside /repo and /verif, the patch applied there, the harness pointed at it
+# through VERIF_REPO, and the worktree removed afterwards (with its build output).
 set -u
 TARGET=$1; TIER=$2; shift 2
-cd /verif
-export VERIF_OUT=${VERIF_OUT:-/var/tmp/verif-mutant-out/$(basename "$TARGET")}
-mkdir -p "$VERIF_OUT"
 if [ -d "$TARGET" ]; then
-  export VERIF_REPO=$TARGET
+  if [ -f "$TARGET/patch.diff" ]; then PATCH=$TARGET/patch.diff; else PATCH=$TARGET/MUTANT/patch.diff; fi
 else
-  if [ -n "$(git -C /repo status --porcelain)" ]; then echo "/repo is dirty, refusing"; exit 3; fi
-  git -C /repo apply "$TARGET" || { echo "patch does not apply"; exit 3; }
-  trap 'git -C /repo checkout -- . ; git -C /repo status --porcelain | grep -v "^??" ' EXIT
+  PATCH=$TARGET
 fi
+NAME=$(echo "$TARGET" | tr '/' '_')
+WT=/var/tmp/verif-mutant-wt/$NAME.$$
+mkdir -p /var/tmp/verif-mutant-wt
+git -C /repo worktree add -q --detach "$WT" HEAD || exit 3
+trap 'git -C /repo worktree remove --force "$WT" 2>/dev/null; rm -rf "$WT" "$VERIF_OUT"' EXIT
+git -C "$WT" apply "$PATCH" || { echo "patch does not apply to /repo HEAD"; exit 3; }
+export VERIF_REPO=$WT
+export VERIF_OUT=/var/tmp/verif-mutant-out/$NAME.$$
+mkdir -p "$VERIF_OUT"
+cd /verif
 for p in "$@"; do
   out=$(./check "$p" "$TIER" 2>&1); rc=$?
   echo "== $p rc=$rc :: $(echo "$out" | grep -E "^$p (quick|thorough)|^C09 corpus|INCONCLUSIVE" | tr '\n' ' ' | cut -c1-260)"
